@@ -199,6 +199,26 @@ Section Scopes.
     sem L funs n b c = Fin (sg, c') -> tl (env c') = tl (env c).
   Proof. exact (sem_tail Name Atom Op Val World Bnd FId Err L funs). Qed.
 
+  (* the arguments of a call are evaluated in the CALLER's frames: under the callee's fresh, still empty frame they have, argument
+     by argument, exactly the values and effects they have in the caller's configuration - for any expressions, nested calls
+     F(G(B),A) included, whatever the parameters are called ... *)
+  Theorem C11_args_in_caller_scope : forall (n : nat) args (c : gcfg),
+    evals_with (eval L funs (sem L funs n)) args (push_frame c)
+    = gmap Err (fun p => (fst p, push_frame (snd p))) (evals_with (eval L funs (sem L funs n)) args c).
+  Proof. exact (args_in_caller_frames Name Atom Op Val World Bnd FId Err L funs). Qed.
+  (* ... so a call binds its parameters to the values of the argument expressions in the caller's scope stack (all evaluated, left
+     to right, BEFORE the first parameter is bound: bind_params receives the finished list vs) *)
+  Theorem C11_call_in_caller_scope : forall (n : nat) f args (c : gcfg) b id fd vs c1,
+    lookup L f (env c) = Some b -> l_view_of L b = BFun id -> funs id = Some fd ->
+    evals_with (eval L funs (sem L funs n)) args c = Fin (vs, c1) ->
+    eval L funs (sem L funs n) (ECall f args) c = call_body L (sem L funs n) fd vs (push_frame c1).
+  Proof. exact (call_in_caller_scope Name Atom Op Val World Bnd FId Err L funs). Qed.
+  Theorem C11_statement_call_in_caller_scope : forall (n : nat) id args (c : gcfg) fd vs c1,
+    funs id = Some fd -> eval_args L funs (sem L funs n) args c = Fin (vs, c1) ->
+    exec_stmt L funs (sem L funs n) (CallS id args) c
+    = rbind (call_body L (sem L funs n) fd vs (push_frame c1)) (fun q => Fin (Normal, snd q)).
+  Proof. exact (statement_call_in_caller_scope Name Atom Op Val World Bnd FId Err L funs). Qed.
+
   (* positional binding with declared defaults: parameter number j gets argument number j, or its declared default when that
      argument is missing or has no value *)
   Theorem C11_defaults :
@@ -279,6 +299,14 @@ Example C11_example_compile :
    | Ok (_, log) => log = zs "[PRINT](0) 5" ++ [10] ++ zs "[PRINT](0) 1" | _ => False end).
 Proof. vm_compute. repeat split. Qed.
 
+(* the seeded-change witness: parameters named like the caller's variables, arguments swapped *)
+Example C11_example_swapped_arguments :
+  (match compile_script (zs "INT A=1; INT B=2; FUNCTION SHOW(INT A, INT B){ PRINT(A); PRINT(B) }; SHOW(B, A)") with
+   | Ok (_, log) => log = zs "[PRINT](0) 2" ++ [10] ++ zs "[PRINT](0) 1" | _ => False end) /\
+  (match compile_script (zs "INT A=1 INT B=2 INT C=3 FUNCTION F(A,B,C){ RETURN(A*100+B*10+C) } FUNCTION G(B){ RETURN(B+5) } PRINT(F(C,A,B),F(B,B,A),F(G(B),A,G(A)))") with
+   | Ok (_, log) => log = zs "[PRINT](0) 312 221 716" | _ => False end).
+Proof. vm_compute. repeat split. Qed.
+
 (* the limit theorem is not vacuous: a language with limit 2, one counter, a loop that never ends *)
 Definition ex_lang : lang nat unit unit nat nat nat nat unit :=
   mkLang Nat.eqb 0%nat (fun b => BVal b) (fun v => v) (fun v => negb (Nat.eqb v 0)) 0%nat 0%nat (fun _ => false)
@@ -314,6 +342,9 @@ Print Assumptions C11_scope.
 Print Assumptions C11_scope_statement_call.
 Print Assumptions C11_local_writes_only.
 Print Assumptions C11_defaults.
+Print Assumptions C11_args_in_caller_scope.
+Print Assumptions C11_call_in_caller_scope.
+Print Assumptions C11_statement_call_in_caller_scope.
 Print Assumptions C11_if_one_branch_tokens.
 Print Assumptions C11_call_named_tokens.
 Print Assumptions C11_statement_call_tokens.
